@@ -8,11 +8,15 @@ package main
 
 import (
 	"bufio"
+	"bytes"
 	"encoding/json"
 	"fmt"
 	"os"
+	"os/exec"
 	"path/filepath"
 	"strings"
+	"syscall"
+	"time"
 
 	"github.com/0xReLogic/Helios/internal/config"
 	"github.com/0xReLogic/Helios/internal/loadbalancer"
@@ -59,7 +63,9 @@ var yamlOf = map[string]map[string]string{
 		"i_to0":      "circuit_breaker:\n  enabled: true\n  max_requests: 5\n  interval_seconds: 60\n  timeout_seconds: 0\n  failure_threshold: 5\n  success_threshold: 2\n",
 		"i_iv0":      "circuit_breaker:\n  enabled: true\n  max_requests: 5\n  interval_seconds: 0\n  timeout_seconds: 60\n  failure_threshold: 5\n  success_threshold: 2\n",
 		"i_mr_lt_st": "circuit_breaker:\n  enabled: true\n  max_requests: 1\n  interval_seconds: 60\n  timeout_seconds: 60\n  failure_threshold: 5\n  success_threshold: 3\n"},
-	"metrics": {"off": "", "on": "metrics:\n  enabled: true\n  port: 19090\n  path: \"/metrics\"\n", "i_port0": "metrics:\n  enabled: true\n  port: 0\n  path: \"/metrics\"\n", "i_nopath": "metrics:\n  enabled: true\n  port: 19090\n"},
+	"metrics": {"off": "", "on": "metrics:\n  enabled: true\n  port: 19090\n  path: \"/metrics\"\n", "i_port0": "metrics:\n  enabled: true\n  port: 0\n  path: \"/metrics\"\n", "i_nopath": "metrics:\n  enabled: true\n  port: 19090\n",
+		"n_health_path": "metrics:\n  enabled: true\n  port: 19090\n  path: \"/health\"\n", "n_brace_path": "metrics:\n  enabled: true\n  port: 19090\n  path: \"/m{x\"\n",
+		"n_noslash_path": "metrics:\n  enabled: true\n  port: 19090\n  path: \"metrics\"\n"},
 	"admin": {"off": "", "on": "admin_api:\n  enabled: true\n  port: 19091\n  auth_token: \"change-me\"\n",
 		"on_lists": "admin_api:\n  enabled: true\n  port: 19091\n  ip_allow_list:\n    - \"127.0.0.1\"\n    - \"192.168.1.0/24\"\n  ip_deny_list:\n    - \"203.0.113.0/24\"\n",
 		"i_port":   "admin_api:\n  enabled: true\n  port: 70000\n"},
@@ -121,6 +127,49 @@ func start(cfg *config.Config) (res string, detail string) {
 	return "ok", ""
 }
 
+// runBinary starts the real cmd/helios binary (path in HELIOS_BIN) with the configuration file and looks at it
+// after a moment: still running, ended with an error, or crashed with a Go panic
+func runBinary(cfgPath string) (string, string) {
+	bin := os.Getenv("HELIOS_BIN")
+	if bin == "" {
+		return "skipped", ""
+	}
+	var stderr bytes.Buffer
+	cmd := exec.Command(bin, "-config", cfgPath)
+	cmd.Stderr = &stderr
+	cmd.Stdout = &stderr
+	if err := cmd.Start(); err != nil {
+		return "skipped", err.Error()
+	}
+	done := make(chan error, 1)
+	go func() { done <- cmd.Wait() }()
+	select {
+	case <-done:
+		out := stderr.String()
+		if strings.Contains(out, "panic:") && strings.Contains(out, "goroutine ") {
+			i := strings.Index(out, "panic:")
+			end := i + 200
+			if end > len(out) {
+				end = len(out)
+			}
+			return "panic", out[i:end]
+		}
+		if len(out) > 200 {
+			out = out[len(out)-200:]
+		}
+		return "exit_err", out
+	case <-time.After(900 * time.Millisecond):
+		cmd.Process.Signal(syscall.SIGTERM)
+		select {
+		case <-done:
+		case <-time.After(5 * time.Second):
+			cmd.Process.Kill()
+			<-done
+		}
+		return "running", ""
+	}
+}
+
 func load(path string) (cfg *config.Config, res string, detail string) {
 	defer func() {
 		if r := recover(); r != nil {
@@ -155,14 +204,19 @@ func main() {
 		var k kase
 		json.Unmarshal(raw, &k)
 		path := k.Path
-		if k.Kind == "cfg" {
+		if k.Kind == "cfg" || k.Kind == "proc" {
 			path = filepath.Join(tmp, "case.yaml")
 			os.WriteFile(path, []byte(render(k.Cfg)), 0o644)
 		}
 		o := map[string]any{"load": "ok", "start": "skipped", "detail": ""}
 		cfg, res, detail := load(path)
 		o["load"], o["detail"] = res, detail
-		if res == "ok" {
+		if k.Kind == "proc" {
+			o["proc"] = "skipped"
+			if res == "ok" {
+				o["proc"], o["detail"] = runBinary(path)
+			}
+		} else if res == "ok" {
 			s, d := start(cfg)
 			o["start"] = s
 			if d != "" {
